@@ -663,8 +663,25 @@ func Snapshot(pkt mq.Packet) ref.Flat {
 		f.Add("p15", p.AuthMethod())
 		f.Add("p16", string(p.AuthData()))
 	case *mq.PingReq, *mq.PingResp:
+		// a ping has no accessor at all; the only thing that distinguishes two
+		// of them is the header byte, which shows in the two bytes it writes
+		var sink firstByteSink
+		pkt.WriteTo(&sink)
+		f.Add("firstbyte", u(uint64(sink.b)))
 	}
 	return f
+}
+
+type firstByteSink struct {
+	b   byte
+	got bool
+}
+
+func (s *firstByteSink) Write(p []byte) (int, error) {
+	if !s.got && len(p) > 0 {
+		s.b, s.got = p[0], true
+	}
+	return len(p), nil
 }
 
 func codeFields(f *ref.Flat, codes []uint8) {
